@@ -1056,7 +1056,7 @@ func (a *vzAdv) injectReplay() {
 				w.orc.onReplayUnanswered(a.nd, hdr)
 				return
 			}
-			w.s.Logf("adv replay %d (%s) => err=%v", id, expect, r.Err)
+			w.s.Logf("adv replay %d (%s) => err=%s", id, expect, vzErrClass(r.Err))
 			w.orc.onReplayResult(a.nd, hdr, proof, expect, r.Err)
 		case <-ctx.Done():
 			w.orc.onReplayUnanswered(a.nd, hdr)
